@@ -613,6 +613,7 @@ type vNode struct {
 	ack      string
 	faultHit bool // the injected failing store call was executed in the last viaEntry
 	onCreate func(t network.Template) (dag.Transaction, error) // publishing path: what networkClient.CreateTransaction does
+	ownTx    dag.Transaction                                   // round 3: when set, CreateTransaction answers it and Manager.Update writes it to the store itself
 }
 
 func vNewNode(t *testing.T, ctrl *gomock.Controller, path string) *vNode {
@@ -2064,13 +2065,32 @@ func (r *vRunner) runHistory(h int, label string, noVerify bool, pairs []*vPair,
 			continue
 		}
 		for j, m := range p.Pre {
+			var own *vTxView
+			if m.Own && j == len(p.Pre)-1 && strings.HasPrefix(p.Kind, "mgr:") {
+				n.ownTx = p.tx.Transaction
+				view := vTxViewOf(p.tx, p.Signer)
+				own = &view
+			}
 			res := n.runManager(m)
-			b, _ := json.Marshal(vMgrOp{Op: "mgr", H: h, I: i, J: j, ID: m.ID, Has: m.Has, Doc: res.view, SvcOk: res.svcOk, Via: m.Via, Key: res.newKey, B58: res.newB58, Rm: m.Rm, Hash: res.rawHash})
+			if res.ownAdd == "" {
+				own = nil
+			}
+			b, _ := json.Marshal(vMgrOp{Op: "mgr", H: h, I: i, J: j, ID: m.ID, Has: m.Has, Doc: res.view, SvcOk: res.svcOk, Via: m.Via, Key: res.newKey, B58: res.newB58, Rm: m.Rm, Hash: res.rawHash, Own: own})
 			r.opsW.Write(b)
 			r.opsW.WriteByte('\n')
 			note := ""
 			if strings.HasPrefix(p.Kind, "mgr:") && j == len(p.Pre)-1 && (res.class != "ok" || (p.tx.SigningKey() == nil && res.kid != p.tx.SigningKeyID()) || (p.tx.SigningKey() != nil && res.key != p.Signer)) {
 				note = " NONDETERMINISTIC(first-run published with kid " + p.tx.SigningKeyID() + ")"
+			}
+			if res.ownAdd == "ok" {
+				// the manager wrote to the store itself: observe right here, so that the delivery that follows is judged against this state
+				obs := n.observe(ps)
+				shown := "="
+				if obs != prevObs {
+					shown = obs
+				}
+				note += " OBS " + shown
+				prevObs, prevCheap = obs, n.observeCheap()
 			}
 			fmt.Fprintf(r.implW, "mgr %d.%d.%d %s%s\n", h, i, j, res.line(), note)
 		}
